@@ -31,10 +31,15 @@ def run(ctx):
                [dict(R=4, B=2, C=2, Cap=2, poison=p) for p in (1, 2, 3, 4)] + [dict(R=3, B=1, C=2, Cap=1, poison=p) for p in (1, 2, 3)]):
         poison_runs(ctx, pk, 120 if ctx.thorough else 40)
     # real multiprocessing, real SIGKILL at the k-th put of worker w (trusted-base cross-check)
-    points = [(1, 1, 0), (1, 2, 1), (2, 1, 0)] if not ctx.thorough else [
-        (g, w, k) for g in (1, 2) for w in (1, 2) for k in (0, 1, 2) if not (g == 2 and w == 2)
+    points = [(1, 1, 0), (1, 2, 1), (1, 1, 2), (2, 1, 1)] if not ctx.thorough else [
+        (g, w, k) for g in (1, 2) for w in (1, 2) for k in (0, 1, 2) if not (g == 2 and (w == 2 or k == 2))
     ]
     real = []
+
+    def in_batch(pt, R=5, B=2, C=2):      # number of records of the batch that worker w of group g gets
+        b = (pt[0] - 1) * C + pt[1]
+        return max(0, min(b * B, R) - (b - 1) * B)
+
     for kill_at in points:
         rc, hung, names = real_mp_tier(ctx, 5, 2, 2, kill_at)
         real.append({"kill_at(group,worker,put#)": kill_at, "rc": rc, "hung": hung, "written": names})
@@ -44,6 +49,9 @@ def run(ctx):
             ctx.violation("realmp_hang", real[-1])
         elif rc == 0 and not full:
             ctx.violation("realmp_success_with_missing_records", real[-1])
+        elif rc == 0 and kill_at[2] <= in_batch(kill_at):
+            # the worker was killed IN its batch (at one of its result puts or at its end-of-batch marker)
+            ctx.violation("realmp_success_although_a_worker_was_killed_in_its_batch", real[-1])
         elif rc not in (0, 1):
             ctx.violation("realmp_unexpected_exit", real[-1])
         ctx.nontrivial.add(("realmp", kill_at))
